@@ -36,7 +36,7 @@ func miscRules() []*Rule {
 		{ID: "ERR-3", Props: []string{"C12"}, Min: 4,
 			Doc: "latched errors are sticky: a captured error cell written inside a callback is only ever assigned a value established non-nil",
 			Run: runErr3},
-		{ID: "SKIP-2", Props: []string{"C12", "C02"}, Min: 2,
+		{ID: "SKIP-2", Props: []string{"C12", "C02"}, Min: 1,
 			Doc: "the per-entry `found` collector of the WITHOUT ROWID adapters is fresh for every index entry",
 			Run: runSkip2},
 		{ID: "DONE-0", Props: []string{"C17", "C03", "C13"}, Min: 10,
@@ -74,25 +74,39 @@ func retTerms(t *Termer, lp *LPath) []string {
 
 func runRange(c *Ctx) {
 	p := c.P
-	t := &Termer{P: p}
 	type spec struct {
-		fn, outerArg string // closure, the key the outer IterMin must search with
-		pred         string // predicate call name ("" = none)
-		predArg      string
-		stopOn       bool // predicate outcome that stops the scan
+		outer, outerArg string // scanning method, the key its IterMin must search with ("" = a full Iter)
+		pred            string // predicate call name ("" = none)
+		predArg         string
+		stopOn          bool // predicate outcome that stops the scan
 	}
-	for _, sp := range []spec{
-		{"(*db.Index).ScanEq$1", "p:key", "db.Equals", "fv:key", false},
-		{"(*db.Index).ScanRange$1", "p:from", "db.Search", "fv:to", true},
-		{"(*db.Index).ScanMin$1", "p:from", "", "", false},
-		{"(*db.Index).Scan$1", "", "", "", false},
+	for _, sp0 := range []spec{
+		{"(*db.Index).ScanEq", "p:key", "db.Equals", "fv:key", false},
+		{"(*db.Index).ScanRange", "p:from", "db.Search", "fv:to", true},
+		{"(*db.Index).ScanMin", "p:from", "", "", false},
+		{"(*db.Index).Scan", "", "", "", false},
 	} {
-		fn := findFn(p, sp.fn)
-		if fn == nil {
-			c.Undecided("anchor "+sp.fn, token.NoPos, "not found")
+		outer := findFn(p, sp0.outer)
+		if outer == nil {
+			c.Undecided("anchor "+sp0.outer, token.NoPos, "not found")
 			continue
 		}
-		paths, _ := EnumLits(fn.Blocks[0], 0, TabOpts{Termer: t, EventOf: callEvents(p)})
+		iter := "db.indexBtree.IterMin"
+		if sp0.outerArg == "" {
+			iter = "db.indexBtree.Iter"
+		}
+		// the per-record adapter: the function literal handed to the iterator (in place or made by a helper)
+		fn, ft := adapterOf(p, outer, iter)
+		if fn == nil {
+			c.Undecided("anchor "+sp0.outer+" adapter", outer.Pos(), "%s does not hand a function literal to %s", sp0.outer, iter)
+			continue
+		}
+		sp := struct {
+			fn, outerArg, pred, predArg string
+			stopOn                      bool
+		}{sp0.outer + "$1", sp0.outerArg, sp0.pred, sp0.predArg, sp0.stopOn}
+		t := ft
+		paths, _ := EnumLits(fn.Blocks[0], 0, TabOpts{Termer: t, EventOf: callEventsT(p, t)})
 		for _, lp := range paths {
 			if lp.Exit == nil {
 				continue
@@ -122,7 +136,7 @@ func runRange(c *Ctx) {
 			}
 		}
 		// the outer function searches with the same key
-		outer := fn.Parent()
+		t = &Termer{P: p}
 		opaths, _ := EnumLits(outer.Blocks[0], 0, TabOpts{Termer: t, EventOf: callEvents(p)})
 		for _, lp := range opaths {
 			if !cleanPath(lp) || lp.Exit == nil {
@@ -199,7 +213,26 @@ func runKey(c *Ctx) {
 		key := "asDbKey " + typ
 		var problems []string
 		// bounds: i ≤ len(cols)−1 established
-		if !strings.Contains(ls, "¬(i−(len("+colsP+")-const:1) > 0)") && !strings.Contains(ls, "i−len("+colsP+") < 0") {
+		bounded := false
+		for _, l := range lp.Lits {
+			parts := strings.Split(l.Subject, "−")
+			if len(parts) == 2 && gen(parts[0]) == "i" && strings.Contains(parts[1], "len("+colsP+")") {
+				// whatever form the test takes (`i > len-1`, `i >= len`, `!(i < len)`): does the path entail i ≤ len(cols)−1 ?
+				if bo, ok := l.Cond.(*ssa.BinOp); ok {
+					pr := newProver(p, t, lp)
+					if l.PS != nil {
+						pr.ps = l.PS // name the operands as they were when the test was made
+					}
+					for _, side := range []ssa.Value{bo.X, bo.Y} {
+						a := pr.linOf(side)
+						if gen(a.base) == "i" && pr.g.entailsLE(a.base, "len("+colsP+")", -1-a.off) {
+							bounded = true
+						}
+					}
+				}
+			}
+		}
+		if !bounded {
 			problems = append(problems, "no check that the key has no more columns than the index")
 		}
 		desc := eventsOf(lp, "store", "Desc")
@@ -244,6 +277,8 @@ func runKey(c *Ctx) {
 			want = strings.ReplaceAll(want, "K", kP+"[i]")
 			if !known {
 				problems = append(problems, "type "+typ+" is not in the documented list")
+			} else if len(vs) == 1 && gen(vs[0].Val) == kP+"[i]" && map[string]bool{"nil": true, "int64": true, "float64": true, "string": true, "[]byte": true}[typ] {
+				// a value of a storage type handed on as it is (`case nil, int64, float64, string, []byte: V = kv`)
 			} else if len(vs) != 1 || gen(vs[0].Val) != want {
 				problems = append(problems, fmt.Sprintf("value stored is %v, expected %s", evVals(vs), want))
 			} else {
@@ -774,7 +809,13 @@ func runSkip2(c *Ctx) {
 	p := c.P
 	n := 0
 	for _, fn := range p.ModFuncs() {
-		if p.PkgShort(fn) != "." || fn.Parent() == nil || len(userCBFreeVars(fn)) == 0 {
+		if p.PkgShort(fn) != "." {
+			continue
+		}
+		// the per-entry adapters, and helpers freshly extracted from them (`findByPK(tab, pk)`)
+		isAdapter := fn.Parent() != nil && len(userCBFreeVars(fn)) > 0
+		isHelper := inlinable != nil && inlinable(fn)
+		if !isAdapter && !isHelper {
 			continue
 		}
 		// nested scans whose callback stores into a captured cell
